@@ -18,7 +18,8 @@ use crate::value::{ScalarType, ScalarValue};
 #[derive(Debug, Default)] // Default is used by --no-intrinsics
 pub struct IntrinsicInstrs {
     intrinsic_opcodes: IndexMap<IntrinsicInstrKind, raw::Opcode>,
-    intrinsic_abi_props: IndexMap<IntrinsicInstrKind, IntrinsicInstrAbiParts>,
+    // (keyed by opcode, because two opcodes with different signatures can provide the same intrinsic)
+    intrinsic_abi_props: IndexMap<raw::Opcode, IntrinsicInstrAbiParts>,
     opcode_intrinsics: IndexMap<raw::Opcode, Sp<IntrinsicInstrKind>>,
     alternatives: AlternativesInfo,
 }
@@ -31,7 +32,10 @@ impl IntrinsicInstrs {
         let iter_pairs = || defs.iter_intrinsic_instrs(language);
         // duplicates can be many-to-many so we iterate twice instead of making one map from the other
         let opcode_intrinsics = iter_pairs().collect::<IndexMap<_, _>>();
-        let intrinsic_opcodes = iter_pairs().map(|(k, v)| (v.value, k)).collect::<IndexMap<_, _>>();
+        // (an opcode that was later redefined as another intrinsic no longer provides the earlier one)
+        let intrinsic_opcodes = iter_pairs()
+            .filter(|(k, v)| opcode_intrinsics[k].value == v.value)
+            .map(|(k, v)| (v.value, k)).collect::<IndexMap<_, _>>();
 
         let intrinsic_abi_props = {
             opcode_intrinsics.iter()
@@ -43,7 +47,7 @@ impl IntrinsicInstrs {
                         )))?;
                     let abi_props = IntrinsicInstrAbiParts::from_abi(kind, abi, abi_loc)
                         .map_err(|e| emitter.as_sized().emit(e))?;
-                    Ok((kind.value, abi_props))
+                    Ok((opcode, abi_props))
                 })
                 .collect_with_recovery()?
         };
@@ -64,7 +68,7 @@ impl IntrinsicInstrs {
 
     pub(crate) fn get_intrinsic_and_props(&self, opcode: raw::Opcode) -> Option<(IntrinsicInstrKind, &IntrinsicInstrAbiParts)> {
         self.opcode_intrinsics.get(&opcode)
-            .map(|&kind| (kind.value, &self.intrinsic_abi_props[&kind.value]))
+            .map(|&kind| (kind.value, &self.intrinsic_abi_props[&opcode]))
     }
 
     pub(crate) fn alternatives(&self) -> &AlternativesInfo {
